@@ -147,6 +147,7 @@ func runOne(c *vh.Ctx, sched []int, label string, via bool) {
 	gen := 0
 	stepping := -1    // event kind being stepped (-1 none)
 	steppingGen := 0
+	upQueuedAtLoad := false
 	lastDeliv := uint8(0)
 	lastDropped := uint64(0)
 	gap := false
@@ -188,6 +189,12 @@ func runOne(c *vh.Ctx, sched []int, label string, via bool) {
 				fifo = fifo[1:]
 				fifoGen = fifoGen[1:]
 			}
+			upQueuedAtLoad = false
+			for _, e := range fifo {
+				if e == aCC {
+					upQueuedAtLoad = true
+				}
+			}
 			if changed {
 				c.Fail(fmt.Sprintf("State() changed at a StepLoad (action #%d)", i), human)
 			}
@@ -210,6 +217,13 @@ func runOne(c *vh.Ctx, sched []int, label string, via bool) {
 				case -1:
 					c.Fail("State() changed at a StepFinish with no step in flight", human)
 				}
+			}
+			// a disconnect of the CURRENT TCP generation takes effect when it is processed, whatever
+			// receive-path commit landed inside the step's load/store window (TCP is down: nothing a
+			// commit says can keep the session up); the only disconnects the supervisor may ignore are
+			// stale ones (injected before the current TCP-up, or with a TCP-up echo still queued)
+			if stepping == aID && closedAt < 0 && steppingGen == gen && !upQueuedAtLoad && sn.State != 0 {
+				c.Fail(fmt.Sprintf("a disconnect of the current generation was processed but State() is %d, not NotConnected", sn.State), human)
 			}
 			if stepping == aIC && closedAt < 0 {
 				closedAt = i
@@ -271,6 +285,9 @@ func main() {
 		{aCC, aIT, aLoad, aFin, aLoad, aCS, aFin, aLoad, aFin},                       // T7 loses the CAS tie
 		{aCC, aCS, aCL, aCS, aLoad, aFin, aLoad, aFin, aLoad, aFin, aLoad, aFin},     // re-select supersedes select-lost
 		{aCC, aLoad, aFin, aID, aID, aLoad, aFin, aCC, aLoad, aFin, aLoad, aFin},     // duplicate disconnect across a reconnect
+		{aCC, aLoad, aFin, aID, aLoad, aCS, aFin, aLoad, aFin, aLoad, aFin},                     // select commit lands inside the DISCONNECT step's load/store window
+		{aCC, aCS, aLoad, aFin, aLoad, aFin, aID, aLoad, aCL, aFin, aLoad, aFin, aLoad, aFin}, // select-lost commit inside the disconnect step's window
+		{aCC, aLoad, aFin, aCS, aID, aLoad, aFin, aLoad, aCL, aFin, aLoad, aFin, aLoad, aFin}, // disconnect step racing a deselect after a select
 	}
 	for _, s := range corpus {
 		full := append(append([]int{}, s...), aDel, aDel, aDel, aDel, aDel, aDel)
